@@ -223,6 +223,13 @@ def run(ctx):
             ctx.violation("oracle:" + k, {"count": ragg["tot"][k], "mode": "rank"}, True)
     ctx.coverage["rank_mode"] = {"runs": ragg["runs"], "trace_lines_compared": ragg["lines"], "outcomes": ragg["outcomes"],
                                  "remote_antis": ragg["tot"].get("antis_remote", 0), "early_antis": ragg["tot"].get("early_antis", 0)}
+    # ---- adversarial peer: deterministic, dense in the rare remote paths (see runlib.peer_matrix)
+    pagg = runlib.peer_matrix(ctx, 60, 1500, salt=2)
+    if pagg and pagg.divs and not ctx.violations:
+        for r in pagg.divs[:2]:
+            d = r["div"]
+            if any(m in d["model"] or m in d["impl"] for m in ("MISMATCH", "BELOW-GVT", "double-free", "unexpected-free", "deq-not-queued")):
+                ctx.violation("trace-witness", {"cfg": r["cfg"], "div": d, "mode": "peer"}, True)
     ctx.oblige("correspondence:dist (committed stream + final states of %d multi-rank runs vs the Lean sequential executor, %d lines)"
                % (agg.runs, agg.lines), not agg.divs,
                json.dumps({"cfg": agg.divs[0]["cfg"], "div": agg.divs[0]["div"]}) if agg.divs else "")
